@@ -138,6 +138,9 @@ func runC05(c *Ctx) {
 			}
 		}
 	})
+	if c.Thorough {
+		runFuzzStage(c, 8000000)
+	}
 	for _, d := range decs {
 		rec.Require(d.name+":accepted", 50)
 	}
